@@ -70,10 +70,20 @@ pub fn eval_case(case: &Case, st: &mut Stats) -> Vec<Fail> {
         return fails;
     }
     // serialisability is kept, reparse equal modulo declarations
-    // (only for trees whose names are all expressible with the declarations in scope: for the others the
-    // serialiser itself is not faithful, which is C10's subject, not this property's)
-    if !serialisable(&case.tree, &base_scope()) {
-        st.bump("skipped_not_expressible");
+    // (only for trees that serialise *faithfully* before the call: to_string is Ok and its output reparses to
+    // the original modulo declarations; whether serialisation is faithful at all is C10's subject)
+    let faithful_before = match &text_before {
+        Ok(tb) => {
+            let mut x2 = Xot::new();
+            match x2.parse(tb) {
+                Ok(n) => diff_class(&norm(&case.tree.without_decls()), &norm(&read(&x2, n).without_decls())).is_none(),
+                Err(_) => false,
+            }
+        }
+        Err(_) => false,
+    };
+    if !faithful_before {
+        st.bump("skipped_not_serialisable_before");
     } else if let Ok(tb) = &text_before {
         match catch(|| xot.to_string(root)) {
             Err(p) => fails.push(Fail::new(format!("panic|to_string|{}", panic_class(&p)), case.tree.show())),
